@@ -403,7 +403,8 @@ def first_level(sched, make_bodies, bound, check, stats):
         for alt in range(1, n):
             if (1 if re else 0) > bound:
                 continue
-            subs.append((x.choices[:i] + [alt], x.sig[: i + 1]))
+            # the root execution takes choice 0 everywhere: a first-level subtree is (number of zeros, alternative)
+            subs.append((i, alt))
     return subs, x
 
 
